@@ -161,6 +161,9 @@ class LineRun:
                         for op in gaps[k]:
                             build_mod.ScriptAction(self.model.world, op, self.model.log)()
                             self.count('operations_between_runs')
+                            # every operation issued from outside is a boundary of its own (two of them may
+                            # cancel out, e.g. shutdown then restore)
+                            self.run_begin(self.model.env, self.model.env.now, 0)
                 for m in self.monitors:
                     f = getattr(m, 'on_end', None)
                     if f is not None:
